@@ -121,7 +121,8 @@ Fixpoint obs_all (i : nat) (l : list obs) : list (nat * nat) :=
 Definition check_case (c : case) : list (nat * nat) :=
   obs_all 0 (ac_obs c)
   ++ (if ac_bots_only c && negb (Nat.eqb (ac_refused c) 0) then [(3%nat, 4%nat)] else [])          (* a bot's call was refused by the table *)
-  ++ (if ac_bots_only c && ac_noted c then [(3%nat, 5%nat)] else []).                              (* a bots-only hand did not reach settlement *)
+  ++ (if ac_bots_only c && ac_noted c then [(3%nat, 5%nat)] else [])                               (* a bots-only hand did not reach settlement *)
+  ++ (if negb (ac_bots_only c) && ac_noted c then [(2%nat, 9%nat)] else []).                       (* an actor panicked on a snapshot, or the history could not be played *)
 
 Fixpoint check_all (i : nat) (cs : list case) : list (nat * (nat * nat)) :=
   match cs with
